@@ -44,6 +44,11 @@ func c04RPCs(tier string) []RPC {
 	} {
 		out = append(out, RPC{Kind: "cs", Client: []string{"S0", "S1", "C", "R*"}, Handler: h})
 	}
+	// an idle stream (the handler waits, the reader waits for the next frame) when the context ends, and
+	// receives issued after the one that reported it
+	out = append(out, RPC{Kind: "ss", Client: []string{"S0", "C", "R*", "R", "R"}, Handler: []string{"r", "w", "ret:ctx"}})
+	out = append(out, RPC{Kind: "ss", Client: []string{"S0", "C", "R", "R*", "R"}, Handler: []string{"r", "s0", "w", "ret:ctx"}})
+	out = append(out, RPC{Kind: "bd", Client: []string{"S0", "C", "R*", "R"}, Handler: []string{"r*", "w", "ret:ctx"}})
 	// single-response stream: receives issued after the one that reported the outcome
 	out = append(out, RPC{Kind: "cs", Client: []string{"S0", "C", "R*", "R", "R"}, Handler: []string{"r*", "s0", "ret:ok"}})
 	out = append(out, RPC{Kind: "cs", Client: []string{"S0", "C", "H", "R*", "R", "T"}, Handler: []string{"r*", "h:a", "s0", "t:b", "ret:ok"}})
@@ -121,6 +126,16 @@ func c04Scenarios(tier string) []*Scenario {
 			if tr == "inproc" {
 				sc.Cloner = "yield"
 			}
+			out = append(out, sc)
+		}
+		// a call that has a (far) deadline and is cancelled explicitly
+		for _, rpc := range []RPC{
+			{Kind: "unary", Client: []string{"I"}, Handler: []string{"dec", "w", "ret:ctx"}},
+			{Kind: "ss", Client: []string{"S0", "C", "R*"}, Handler: []string{"r", "w", "ret:ctx"}},
+			{Kind: "bd", Client: []string{"S0", "C", "R*"}, Handler: []string{"r*", "s0", "w", "ret:ctx"}},
+		} {
+			sc := sc1("C04", "cancel|fardl|"+rpcName(rpc), tr, "cancel", rpc)
+			sc.Opts = "fardl"
 			out = append(out, sc)
 		}
 		// Header() parked or issued around the cancellation
